@@ -240,7 +240,8 @@ class Controller:
     def __init__(self, targets: list[str], split_lines: Optional[set[tuple[str, int]]] = None,
                  max_steps: int = 4000, clock0: float = 1000.0, watchdog_s: float = 60.0,
                  on_step: Optional[Callable[["Controller", Step], None]] = None,
-                 skip_funcs: Optional[set[str]] = None, only_funcs: Optional[set[str]] = None):
+                 skip_funcs: Optional[set[str]] = None, only_funcs: Optional[set[str]] = None,
+                 yield_lines: Optional[dict[str, set[int]]] = None):
         self.targets = {os.path.realpath(t) for t in targets}
         self._target_cache: dict[str, bool] = {}
         self.split_lines = {(os.path.realpath(f), ln) for f, ln in (split_lines or set())}
@@ -248,6 +249,8 @@ class Controller:
         self._split_cache: dict[Any, dict[int, str]] = {}
         self.skip_funcs = set(skip_funcs or ())   # functions of the target files that run atomically
         self.only_funcs = set(only_funcs) if only_funcs else None   # if given: all others run atomically
+        # functions (by name) in which only the listed lines are pre-emption points
+        self.yield_lines = {k: set(v) for k, v in (yield_lines or {}).items()}
         self.max_steps = max_steps
         self.now = clock0
         self.watchdog_s = watchdog_s
@@ -299,7 +302,8 @@ class Controller:
             return None
         code = frame.f_code
         if not self._is_target(code.co_filename) or code.co_name in self.skip_funcs or \
-                (self.only_funcs is not None and code.co_name not in self.only_funcs):
+                (self.only_funcs is not None and code.co_name not in self.only_funcs
+                 and code.co_name not in self.yield_lines):
             return None
         if self._splits(code):
             frame.f_trace_opcodes = True
@@ -310,6 +314,9 @@ class Controller:
             ts = self.current()
             if ts is not None:
                 code = frame.f_code
+                yl = self.yield_lines.get(code.co_name)
+                if yl is not None and frame.f_lineno not in yl:
+                    return self._local_trace
                 self._yield(ts, ("line", os.path.basename(code.co_filename), frame.f_lineno, code.co_name))
         elif event == "opcode":
             sp = self._split_cache.get(frame.f_code)
